@@ -101,6 +101,8 @@ Fixpoint set_nth {A : Type} (k : nat) (x : A) (l : list A) : list A :=
 Record gstate := {
   g_rng : rng;
   g_threads : Z;            (* BLAS/OpenMP pool size, fixed when the process starts *)
+  g_salt : Z;               (* the hash salt of the interpreter (PYTHONHASHSEED; -1 = random): it fixes the iteration order
+                               of every set / dict-from-set of strings in the process *)
   g_ct_default : list Z;    (* contents of the shared default list warnings=[] of CalTRACKHourlyModelResults *)
   g_warm : list family;     (* code paths that have run *)
   g_jit : list (family * Z); (* the numba JIT cache (in memory and on disk, NUMBA_CACHE_DIR): for each family whose code
@@ -112,9 +114,10 @@ Record gstate := {
 }.
 
 (* a process starts with whatever JIT cache earlier processes left on disk *)
-Definition init_cache (pid threads : Z) (cache : list (family * Z)) : gstate :=
-  {| g_rng := rng_start pid; g_threads := threads; g_ct_default := []; g_warm := []; g_jit := cache; g_models := [];
+Definition init_full (pid threads : Z) (cache : list (family * Z)) (salt : Z) : gstate :=
+  {| g_rng := rng_start pid; g_threads := threads; g_salt := salt; g_ct_default := []; g_warm := []; g_jit := cache; g_models := [];
      g_objs := []; g_dbs := [] |}.
+Definition init_cache (pid threads : Z) (cache : list (family * Z)) : gstate := init_full pid threads cache 0.
 Definition init (pid threads : Z) : gstate := init_cache pid threads [].
 
 Definition fam_eqb (a b : family) : bool :=
@@ -141,17 +144,17 @@ Inductive op :=
 | FitDB (k : nat) (d : Z).                 (* daily/billing object k: fit(data d) -- possibly not its first fit *)
 
 Definition with_result (s : gstate) (r : rng) (w : list family) (x : res) : gstate * res :=
-  ({| g_rng := r; g_threads := g_threads s; g_ct_default := g_ct_default s; g_warm := w;
+  ({| g_rng := r; g_threads := g_threads s; g_salt := g_salt s; g_ct_default := g_ct_default s; g_warm := w;
       g_jit := match x with RFit f _ cfg _ _ => jit_populate f cfg (g_jit s) | _ => g_jit s end;
       g_models := g_models s ++ [x]; g_objs := g_objs s; g_dbs := g_dbs s |}, x).
 
 Definition with_objs (p : gstate * res) (objs : list hobj) : gstate * res :=
-  ({| g_rng := g_rng (fst p); g_threads := g_threads (fst p); g_ct_default := g_ct_default (fst p);
+  ({| g_rng := g_rng (fst p); g_threads := g_threads (fst p); g_salt := g_salt (fst p); g_ct_default := g_ct_default (fst p);
       g_warm := g_warm (fst p); g_jit := g_jit (fst p); g_models := g_models (fst p); g_objs := objs;
       g_dbs := g_dbs (fst p) |}, snd p).
 
 Definition with_dbs (p : gstate * res) (dbs : list dbobj) : gstate * res :=
-  ({| g_rng := g_rng (fst p); g_threads := g_threads (fst p); g_ct_default := g_ct_default (fst p);
+  ({| g_rng := g_rng (fst p); g_threads := g_threads (fst p); g_salt := g_salt (fst p); g_ct_default := g_ct_default (fst p);
       g_warm := g_warm (fst p); g_jit := g_jit (fst p); g_models := g_models (fst p); g_objs := g_objs (fst p);
       g_dbs := dbs |}, snd p).
 
@@ -179,27 +182,31 @@ Definition mark_fitted (o : hobj) : hobj :=
 
 (* as coded: 1 when the linear algebra of the family is sensitive to the pool size, i.e. only CalTRACK hourly
    (statsmodels WLS -> LAPACK); daily/billing use numba + NLopt, hourly uses coordinate descent and small SVDs *)
-Definition thread_class (f : family) (threads : Z) : Z :=
-  match f with CalTrack => threads | _ => 0 end.
+Definition thread_class (f : family) (env : Z) : Z :=
+  match f with CalTrack => env | _ => 0 end.
+(* the part of the process environment the CalTRACK hourly model consults, as coded: the BLAS pool size (statsmodels WLS ->
+   LAPACK, known finding C03-K1) AND the hash salt of the interpreter (CalTRACKSegmentModel.predict orders the columns of
+   its dot product by  list(set(parameters.keys()).intersection(...)), a set of strings: known finding C03-K2) *)
+Definition ct_env (s : gstate) : Z := g_threads s * 4611686018427387904 + g_salt s.
 
 Definition step (s : gstate) (o : op) : gstate * res :=
   match o with
-  | FitDaily d cfg => with_result s (g_rng s) (Daily :: g_warm s) (RFit Daily d cfg (thread_class Daily (g_threads s)) [])
-  | FitBilling d cfg => with_result s (g_rng s) (Billing :: g_warm s) (RFit Billing d cfg (thread_class Billing (g_threads s)) [])
+  | FitDaily d cfg => with_result s (g_rng s) (Daily :: g_warm s) (RFit Daily d cfg (thread_class Daily (ct_env s)) [])
+  | FitBilling d cfg => with_result s (g_rng s) (Billing :: g_warm s) (RFit Billing d cfg (thread_class Billing (ct_env s)) [])
   | FitHourly d c (Some z) =>
       with_result s (g_rng s) (Hourly :: g_warm s)
-        (RFit Hourly d (h_id c) (thread_class Hourly (g_threads s)) (hourly_consumers c (SdLit z)))
+        (RFit Hourly d (h_id c) (thread_class Hourly (ct_env s)) (hourly_consumers c (SdLit z)))
   | FitHourly d c None =>
       (* the operation is construct + fit + to_json + predict.  As coded, the generator is consulted TWICE: once by
          _check_seed when the settings are constructed (this draw is the seed of the fit), and once more by to_json(),
          whose SerializeModel(settings=self.settings, ..) runs the settings' after-validator _check_seed again (the
          model's _seed is replaced by a new draw after serialisation; nothing of the fitted model depends on it) *)
       with_result s (rng_push EvRandint (rng_push EvRandint (g_rng s))) (Hourly :: g_warm s)
-        (RFit Hourly d (h_id c) (thread_class Hourly (g_threads s)) (hourly_consumers c (SdDraw (g_rng s))))
+        (RFit Hourly d (h_id c) (thread_class Hourly (ct_env s)) (hourly_consumers c (SdDraw (g_rng s))))
   | FitCalTrack d =>
       (* every CalTRACKHourlyModelResults of the fit path is built with an explicit warnings list:
          the shared default is neither read nor written *)
-      with_result s (g_rng s) (CalTrack :: g_warm s) (RFit CalTrack d 0 (thread_class CalTrack (g_threads s)) [])
+      with_result s (g_rng s) (CalTrack :: g_warm s) (RFit CalTrack d 0 (thread_class CalTrack (ct_env s)) [])
   | Predict k =>
       with_result s (g_rng s) (g_warm s)
         (match nth_error (g_models s) k with
@@ -218,7 +225,7 @@ Definition step (s : gstate) (o : op) : gstate * res :=
       | None => with_result s (g_rng s) (g_warm s) RNothing
       | Some o =>
           (* the fit reads ONLY the object's own settings; the observation (to_json) re-validates them *)
-          let x := RFit Hourly d (h_id (ob_cfg o)) (thread_class Hourly (g_threads s)) (obj_consumers o) in
+          let x := RFit Hourly d (h_id (ob_cfg o)) (thread_class Hourly (ct_env s)) (obj_consumers o) in
           let '(r, o') := revalidate (g_rng s) (mark_fitted o) in
           with_objs (with_result s r (Hourly :: g_warm s) x) (set_nth k o' (g_objs s))
       end
@@ -250,7 +257,7 @@ Definition step (s : gstate) (o : op) : gstate * res :=
           (* fit() re-initialises everything it uses from the data it is given: what the object was fitted on before
              (db_last) is not read *)
           with_dbs (with_result s (g_rng s) (db_fam o :: g_warm s)
-                      (RFit (db_fam o) d (db_cfg o) (thread_class (db_fam o) (g_threads s)) []))
+                      (RFit (db_fam o) d (db_cfg o) (thread_class (db_fam o) (ct_env s)) []))
                    (set_nth k {| db_fam := db_fam o; db_cfg := db_cfg o; db_last := Some d |} (g_dbs s))
       end
   end.
@@ -294,12 +301,12 @@ Definition is_fit (o : op) : bool :=
 Definition thread_sensitive (o : op) : bool := match o with FitCalTrack _ => true | _ => false end.
 
 (* what a seeded fit returns, as a function of the operation and the pool size alone *)
-Definition pure_out (threads : Z) (o : op) : res :=
+Definition pure_out (env : Z) (o : op) : res :=
   match o with
   | FitDaily d cfg => RFit Daily d cfg 0 []
   | FitBilling d cfg => RFit Billing d cfg 0 []
   | FitHourly d c (Some z) => RFit Hourly d (h_id c) 0 (hourly_consumers c (SdLit z))
-  | FitCalTrack d => RFit CalTrack d 0 threads []
+  | FitCalTrack d => RFit CalTrack d 0 env []
   | _ => RNothing
   end.
 
